@@ -207,11 +207,16 @@ def several_expiries(ctx, prog, viol):
     """both timers can come due in one timer wake-up (an idle client and a silent server): every expiry the wheel reports is acted on"""
     ex = mk_ex(ctx, prog)
     f = prog.method('Inner', 'process_heartbeat_timers')
-    for kinds in (('Tx', 'Rx'), ('Rx', 'Tx')):
+    for kinds, queued in ((('Tx', 'Rx'), False), (('Rx', 'Tx'), False), (('Tx', 'Rx'), True), (('Rx', 'Tx'), True)):
         h = z3.BitVec('h', 16)
         timers, last_r, last_t, base, hns, pc = _two_timers(prog, None, h, kinds)
-        st, w = build_steady(prog, [], hb=timers, outbuf_len=0)
-        st.pc += pc
+        if queued:
+            # unsent data is queued (writes stuck on would-block): the tx expiry adds nothing, the rx expiry of the same wake-up still counts
+            st, w = build_steady(prog, [], hb=timers)
+            st.pc += pc + [w.outbuf.len != 0]
+        else:
+            st, w = build_steady(prog, [], hb=timers, outbuf_len=0)
+            st.pc += pc
         st.roots['clock'] = Clock()
         st.roots['clock'].reads.append(base)
         n = 0
@@ -226,11 +231,13 @@ def several_expiries(ctx, prog, viol):
             tx_due = z3.UGE(first - last_t, hns)
             if isinstance(rv, Panic):
                 c = [z3.BoolVal(False)]
+            elif queued:
+                c = [z3.Implies(rx_due, z3.BoolVal(out == 'MissedServerHeartbeats')), z3.BoolVal(out in ('Ok', 'MissedServerHeartbeats') and len(items) == 0), earlier_kept(w1)]
             else:
                 c = [z3.Implies(rx_due, z3.BoolVal(out == 'MissedServerHeartbeats')),
                      z3.Implies(z3.And(tx_due, z3.BoolVal(out == 'Ok')), z3.BoolVal(len(items) == 1 and items[0]['kind'] == 'heartbeat')),
                      z3.BoolVal(out in ('Ok', 'MissedServerHeartbeats') and len(items) <= 1)]
-            m = ctx.decide(f"c17.both-due[{'+'.join(kinds)}]#{n}", s.pc, z3.And(*c),
+            m = ctx.decide(f"c17.both-due[{'+'.join(kinds)}{',queued' if queued else ''}]#{n}", s.pc, z3.And(*c),
                            group='two expiries reported in one timer wake-up (either order) are both acted on: 2h of silence => MissedServerHeartbeats, and an idle h => one heartbeat frame',
                            sample={'expired': list(kinds), 'result': out, 'frames': len(items)})
             if m is not None:
@@ -464,6 +471,9 @@ def hb_replay(what):
     let mut bad: Vec<String> = Vec::new();
     { let mut i = mk_inner(); i.start_heartbeats(1); sleep_ms(2400); let r = res_name(i.process_heartbeat_timers());
       if r != "MissedServerHeartbeats" { bad.push(format!("both-due-after-2.4s:{}:{}", r, i.outbuf.len())); } }
+    // the same with unsent data queued (the transport takes nothing): the tx expiry adds no frame, the rx expiry still ends the connection
+    { let mut i = mk_inner(); i.start_heartbeats(1); i.outbuf.push_heartbeat(); let l0 = i.outbuf.len(); sleep_ms(2400); let r = res_name(i.process_heartbeat_timers());
+      if r != "MissedServerHeartbeats" || i.outbuf.len() != l0 { bad.push(format!("both-due-with-queued-data-after-2.4s:{}:{}", r, i.outbuf.len())); } }
 '''
     elif what == 'timer-event':
         desc = 'h=1s: in each of ServerClosing / ClientException / ClientClosed / Steady, 2.4 s of silence followed by the timer wake-up => MissedServerHeartbeats'
